@@ -687,6 +687,7 @@ Section ExFacts.
     rewrite !imem_mem in Hk. tauto.
   Qed.
 
+  Section DiffusionSolver.
   Variable solve : list (list F) -> list F -> list F.
 
   Lemma diffusion_spec (d : spline F) a b basis :
@@ -781,6 +782,8 @@ Section ExFacts.
     pose proof (Hsolve mat []) as Hl. destruct (solve mat []) as [|c cs]; [|discriminate].
     reflexivity.
   Qed.
+
+  End DiffusionSolver.
 
   (* ------------------------------------------------------------------ *)
   (* Part A.6: the spline-potential example                               *)
@@ -886,6 +889,7 @@ Section ExFacts.
     rewrite pot_basis_few by assumption. reflexivity.
   Qed.
 
+  Section EigenSolver.
   Variable eigs : list (list F) -> list (list F) -> list (F * list F).
 
   Definition eigs_sized : Prop :=
@@ -1000,6 +1004,8 @@ Section ExFacts.
     - rewrite sub_oob by lia. reflexivity.
   Qed.
 
+  End EigenSolver.
+
   (* ================================================================== *)
   (* Part B.1: scaling the diffusion coefficient scales the system       *)
   (* ================================================================== *)
@@ -1112,7 +1118,8 @@ Section ExFacts.
 
   (* hence, for a solver that is insensitive to a common factor of matrix and
      right-hand side, the returned concentration does not change at all *)
-  Corollary diffusion_scale_invariant (d : spline F) lam a b :
+  Corollary diffusion_scale_invariant (solve : list (list F) -> list F -> list F)
+    (d : spline F) lam a b :
     SplInv d -> nintervals (ssup d) <> 0%N -> (1 <= ORDER)%nat ->
     sstart (ssup d) = 0%N /\ sstop (ssup d) = nlen (sgridp d) ->
     (forall m r, solve (map (map (fun x => x * lam)%F) m) (map (fun x => x * lam)%F r) = solve m r) ->
@@ -1265,8 +1272,394 @@ Section ExFacts.
     rewrite Forall_forall in Rh, Rs, Rh'.
     rewrite (lincomb_rows (nth i s []) (nth i h []) (nth i h' []) x c).
     - rewrite Heig. ring.
-    - rewrite (Rh _ (nth_In h [] ltac:(lia))), (Rs _ (nth_In s [] ltac:(lia))). reflexivity.
-    - rewrite (Rh' _ (nth_In h' [] ltac:(lia))), (Rs _ (nth_In s [] ltac:(lia))). reflexivity.
+    - rewrite (Rh (nth i h [])), (Rs (nth i s [])) by (apply nth_In; lia). reflexivity.
+    - rewrite (Rh' (nth i h' [])), (Rs (nth i s [])) by (apply nth_In; lia). reflexivity.
     - intros j. apply Hent.
   Qed.
+
+  (* ================================================================== *)
+  (* Part C.1: B-splines of a clamped knot vector at the two end points  *)
+  (* ================================================================== *)
+
+  (* left end: the first p+1 knots coincide with the first grid point a;
+     on grid interval 0 the polynomial of B_{i,q} takes the value
+     [i = p - q] at a *)
+  Lemma clamped_left_aux (ks : list F) p a :
+    nondecreasing ks -> (forall i, (i <= p)%nat -> knot ks i = a) ->
+    fltb a (knot ks (p + 1)) = true -> nth 0 (unique ks) f0 = a ->
+    forall q i, (q <= p)%nat -> (i + q + 1 < length ks)%nat ->
+      Bk ks q i 0 a = if (i =? p - q)%nat then f1 else f0.
+  Proof.
+    intros Hn Hrep Hnext Hg0. induction q as [|q IH]; intros i Hq Hi.
+    - cbn [Bk]. rewrite Hg0, Nat.sub_0_r.
+      destruct (Nat.eqb_spec i p) as [->|Hne].
+      + rewrite (Hrep p (Nat.le_refl _)), Hnext, feqb_refl. reflexivity.
+      + destruct (Nat.lt_ge_cases i p) as [Hlt|Hge].
+        * rewrite (Hrep i), (Hrep (i + 1)%nat) by lia. rewrite flt_irrefl. reflexivity.
+        * assert (fltb a (knot ks i) = true) as Hai.
+          { apply (flt_le_trans _ (knot ks (p + 1))); [exact Hnext|].
+            apply nondecreasing_knot_le; [exact Hn | lia | lia]. }
+          assert (feqb (knot ks i) a = false) as ->.
+          { apply feqb_false. intros E. rewrite E, flt_irrefl in Hai. discriminate. }
+          rewrite andb_false_r. reflexivity.
+    - cbn [Bk]. rewrite (IH i) by lia. rewrite (IH (i + 1)%nat) by lia.
+      (* the first term vanishes: either B is zero or the factor (a - t_i) is *)
+      assert ((if fltb (knot ks i) (knot ks (i + q + 1))
+               then (a - knot ks i) / (knot ks (i + q + 1) - knot ks i)
+                    * (if (i =? p - q)%nat then f1 else f0) else f0)%F = f0) as ->.
+      { destruct (fltb (knot ks i) (knot ks (i + q + 1))) eqn:E1; [|reflexivity].
+        destruct (Nat.eqb_spec i (p - q)) as [Hip|_]; [|ring].
+        rewrite (Hrep i) in * by lia. field. apply fsub_neq0. exact E1. }
+      destruct (Nat.eqb_spec (i + 1) (p - q)) as [Hip|Hip].
+      + assert (i = p - S q)%nat as Hi' by lia. rewrite <- Hi', Nat.eqb_refl.
+        replace (i + q + 2)%nat with (p + 1)%nat by lia.
+        rewrite (Hrep (i + 1)%nat) by lia. rewrite Hnext.
+        field. apply fsub_neq0. exact Hnext.
+      + destruct (Nat.eqb_spec i (p - S q)) as [Hi'|_]; [lia|].
+        destruct (fltb (knot ks (i + 1)) (knot ks (i + q + 2))); ring.
+  Qed.
+
+  (* right end: all knots from index e on coincide with the last grid point b,
+     [t_{e-1}, t_e) is grid interval kL; on it the polynomial of B_{i,q} takes
+     the value [i = e - 1] at b *)
+  Lemma clamped_right_aux (ks : list F) e kL b :
+    nondecreasing ks -> (1 <= e)%nat -> (e < length ks)%nat ->
+    (forall j, (e <= j)%nat -> (j < length ks)%nat -> knot ks j = b) ->
+    fltb (knot ks (e - 1)) b = true -> nth kL (unique ks) f0 = knot ks (e - 1) ->
+    forall q i, (i + q + 1 < length ks)%nat ->
+      Bk ks q i kL b = if (i =? e - 1)%nat then f1 else f0.
+  Proof.
+    intros Hn He1 Hel Hrep Hprev HgL. induction q as [|q IH]; intros i Hi.
+    - cbn [Bk]. rewrite HgL.
+      destruct (Nat.eqb_spec i (e - 1)) as [->|Hne].
+      + replace (e - 1 + 1)%nat with e by lia. rewrite (Hrep e) by lia.
+        rewrite Hprev, feqb_refl. reflexivity.
+      + destruct (Nat.lt_ge_cases i e) as [Hlt|Hge].
+        * destruct (fltb (knot ks i) (knot ks (i + 1))) eqn:E1; [|reflexivity].
+          destruct (feqb (knot ks i) (knot ks (e - 1))) eqn:E2; [|reflexivity].
+          exfalso. apply feqb_true in E2.
+          assert (fleb (knot ks (i + 1)) (knot ks (e - 1)) = true) as H1
+            by (apply nondecreasing_knot_le; [exact Hn | lia | lia]).
+          rewrite <- E2 in H1. pose proof (flt_le_trans _ _ _ E1 H1) as H2.
+          rewrite flt_irrefl in H2. discriminate.
+        * rewrite (Hrep i), (Hrep (i + 1)%nat) by lia. rewrite flt_irrefl. reflexivity.
+    - cbn [Bk]. rewrite (IH i) by lia. rewrite (IH (i + 1)%nat) by lia.
+      (* the second term vanishes: either B is zero or the factor (t - b) is *)
+      assert ((if fltb (knot ks (i + 1)) (knot ks (i + q + 2))
+               then (knot ks (i + q + 2) - b) / (knot ks (i + q + 2) - knot ks (i + 1))
+                    * (if (i + 1 =? e - 1)%nat then f1 else f0) else f0)%F = f0) as ->.
+      { destruct (fltb (knot ks (i + 1)) (knot ks (i + q + 2))) eqn:E1; [|reflexivity].
+        destruct (Nat.eqb_spec (i + 1) (e - 1)) as [Hie|_]; [|ring].
+        rewrite (Hrep (i + q + 2)%nat) in * by lia. field. apply fsub_neq0. exact E1. }
+      destruct (Nat.eqb_spec i (e - 1)) as [Hie|Hie].
+      + rewrite (Hrep (i + q + 1)%nat) by lia. rewrite Hie, Hprev.
+        field. apply fsub_neq0. exact Hprev.
+      + destruct (fltb (knot ks i) (knot ks (i + q + 1))); ring.
+  Qed.
+
+  (* ---- the knots of [knots_of g] ---- *)
+  Lemma nth_repeat_lt (a : F) n i : (i < n)%nat -> nth i (repeat a n) f0 = a.
+  Proof. intros H. apply nth_error_nth. apply nth_error_repeat. exact H. Qed.
+
+  Lemma knot_knots_of_front (g : list F) i : (i < ORDER)%nat -> knot (knots_of g) i = gnth g 0.
+  Proof.
+    intros H. unfold knot, knots_of. rewrite app_nth1 by (rewrite repeat_length; exact H).
+    apply nth_repeat_lt. exact H.
+  Qed.
+
+  Lemma knot_knots_of_mid (g : list F) j : (j < length g)%nat ->
+    knot (knots_of g) (ORDER + j) = nth j g f0.
+  Proof.
+    intros H. unfold knot, knots_of. rewrite app_nth2 by (rewrite repeat_length; lia).
+    rewrite repeat_length. replace (ORDER + j - ORDER)%nat with j by lia.
+    apply app_nth1. exact H.
+  Qed.
+
+  Lemma knot_knots_of_back (g : list F) j : (j < ORDER)%nat ->
+    knot (knots_of g) (ORDER + length g + j) = gnth g (nlen g - 1).
+  Proof.
+    intros H. unfold knot, knots_of. rewrite app_nth2 by (rewrite repeat_length; lia).
+    rewrite repeat_length. rewrite app_nth2 by lia.
+    replace (ORDER + length g + j - ORDER - length g)%nat with j by lia.
+    apply nth_repeat_lt. exact H.
+  Qed.
+
+  Lemma gnth_nat (g : list F) j : gnth g (N.of_nat j) = nth j g f0.
+  Proof. unfold gnth. rewrite Nat2N.id. reflexivity. Qed.
+
+  Section ClampedEnds.
+    Variable g : list F.
+    Hypothesis Hg : GInv g.
+    Let ks := knots_of g.
+    Let n := length g.
+
+    Lemma knots_of_facts : unique ks = g /\ nondecreasing ks /\ (2 <= n)%nat /\
+                           length ks = (n + 2 * ORDER)%nat.
+    Proof.
+      pose proof Hg as (Hg2 & Hg63 & Hinc). unfold nlen in Hg2, Hg63.
+      assert (SInv (mkSup g 0 (nlen g))) as Hs.
+      { unfold SInv, nlen. cbn [sgrid sstart sstop]. lia. }
+      destruct (diff_basis_whole (mkSup g 0 (nlen g)) Hs Hg eq_refl eq_refl) as (HU & HN & _).
+      cbn [sgrid] in HU, HN. split; [exact HU|]. split; [exact HN|]. split; [unfold n; lia|].
+      apply length_knots_of.
+    Qed.
+
+    Lemma knots_left : (forall i, (i <= ORDER)%nat -> knot ks i = gnth g 0) /\
+                       fltb (gnth g 0) (knot ks (ORDER + 1)) = true.
+    Proof.
+      destruct knots_of_facts as (_ & _ & H2 & _). pose proof Hg as (_ & _ & Hinc). fold n in H2.
+      split.
+      - intros i Hi. destruct (Nat.eq_dec i ORDER) as [->|Hne].
+        + replace ORDER with (ORDER + 0)%nat at 1 by lia. unfold ks.
+          rewrite knot_knots_of_mid by (fold n; lia). reflexivity.
+        + apply knot_knots_of_front. lia.
+      - unfold ks. rewrite knot_knots_of_mid by (fold n; lia).
+        rewrite <- (gnth_nat g 1). apply gnth_lt; [exact Hinc | lia | unfold nlen; fold n; lia].
+    Qed.
+
+    Lemma knots_right :
+      (forall j, (ORDER + n - 1 <= j)%nat -> (j < length ks)%nat -> knot ks j = gnth g (nlen g - 1)) /\
+      knot ks (ORDER + n - 1 - 1) = nth (n - 2) g f0 /\
+      fltb (nth (n - 2) g f0) (gnth g (nlen g - 1)) = true.
+    Proof.
+      destruct knots_of_facts as (_ & _ & H2 & Lk). pose proof Hg as (_ & _ & Hinc).
+      split; [|split].
+      - intros j Hj Hjl. destruct (Nat.eq_dec j (ORDER + n - 1)) as [->|Hne].
+        + replace (ORDER + n - 1)%nat with (ORDER + (n - 1))%nat by lia. unfold ks.
+          rewrite knot_knots_of_mid by (fold n; lia).
+          rewrite <- gnth_nat. f_equal. unfold nlen. fold n. lia.
+        + replace j with (ORDER + length g + (j - ORDER - n))%nat by (fold n; lia).
+          apply knot_knots_of_back. fold n. lia.
+      - replace (ORDER + n - 1 - 1)%nat with (ORDER + (n - 2))%nat by lia.
+        apply knot_knots_of_mid. fold n. lia.
+      - rewrite <- gnth_nat. apply gnth_lt; [exact Hinc | unfold nlen; fold n; lia
+                                             | unfold nlen; fold n; lia].
+    Qed.
+
+    (* with an (ORDER+1)-fold end knot the first basis function is 1 at the
+       first grid point and every other one is 0 there *)
+    Theorem clamped_first : Bk ks ORDER 0 0 (gnth g 0) = f1.
+    Proof.
+      destruct knots_of_facts as (HU & HN & H2 & Lk). destruct knots_left as [Hrep Hnext].
+      rewrite (clamped_left_aux ks ORDER (gnth g 0) HN Hrep Hnext); try lia.
+      - rewrite Nat.sub_diag. reflexivity.
+      - rewrite HU. reflexivity.
+    Qed.
+
+    Theorem clamped_others_zero_first i : (1 <= i)%nat -> (i + ORDER + 1 < length ks)%nat ->
+      Bk ks ORDER i 0 (gnth g 0) = f0.
+    Proof.
+      intros Hi Hil.
+      destruct knots_of_facts as (HU & HN & H2 & Lk). destruct knots_left as [Hrep Hnext].
+      rewrite (clamped_left_aux ks ORDER (gnth g 0) HN Hrep Hnext); try lia.
+      - rewrite Nat.sub_diag. destruct i; [lia | reflexivity].
+      - rewrite HU. reflexivity.
+    Qed.
+
+    (* ... and symmetrically at the last grid point, on the last interval *)
+    Theorem clamped_last : Bk ks ORDER (n + ORDER - 2) (n - 2) (gnth g (nlen g - 1)) = f1.
+    Proof.
+      destruct knots_of_facts as (HU & HN & H2 & Lk). destruct knots_right as (Hrep & Hprev & Hlt).
+      rewrite (clamped_right_aux ks (ORDER + n - 1) (n - 2) (gnth g (nlen g - 1)) HN); try lia;
+        try assumption.
+      - replace (ORDER + n - 1 - 1)%nat with (n + ORDER - 2)%nat by lia.
+        rewrite Nat.eqb_refl. reflexivity.
+      - rewrite Hprev. exact Hlt.
+      - rewrite HU, Hprev. reflexivity.
+    Qed.
+
+    Theorem clamped_others_zero_last i : i <> (n + ORDER - 2)%nat ->
+      (i + ORDER + 1 < length ks)%nat ->
+      Bk ks ORDER i (n - 2) (gnth g (nlen g - 1)) = f0.
+    Proof.
+      intros Hi Hil.
+      destruct knots_of_facts as (HU & HN & H2 & Lk). destruct knots_right as (Hrep & Hprev & Hlt).
+      rewrite (clamped_right_aux ks (ORDER + n - 1) (n - 2) (gnth g (nlen g - 1)) HN); try lia;
+        try assumption.
+      - destruct (Nat.eqb_spec i (ORDER + n - 1 - 1)) as [E|_]; [lia | reflexivity].
+      - rewrite Hprev. exact Hlt.
+      - rewrite HU, Hprev. reflexivity.
+    Qed.
+  End ClampedEnds.
+
+  (* ================================================================== *)
+  (* Part C.2: the diffusion solution attains the prescribed end values, *)
+  (* whatever the dense solver returned                                  *)
+  (* ================================================================== *)
+  Section EndValues.
+  Variable solve : list (list F) -> list F -> list F.
+
+  Theorem diffusion_end_values (d : spline F) a b r :
+    SplInv d -> nintervals (ssup d) <> 0%N -> (1 <= ORDER)%nat ->
+    sstart (ssup d) = 0%N /\ sstop (ssup d) = nlen (sgridp d) ->
+    (forall m rhs, length (solve m rhs) = length rhs) ->
+    diffusion ORDER solve d a b = Ok r ->
+    spl_eval r (gnth (sgridp d) 0) = Ok a /\
+    spl_eval r (gnth (sgridp d) (nlen (sgridp d) - 1)) = Ok b.
+  Proof.
+    intros Hd Hn HO Hw Hsolve Hr.
+    pose proof Hd as (Hs & Hg & _). fold (sgridp d) in Hg. destruct Hw as [Hw0 Hw1].
+    set (g := sgridp d) in *. set (ks := knots_of g).
+    destruct (knots_of_facts g Hg) as (HU & HN & H2 & Lk). fold ks in HU, HN, Lk.
+    pose proof Hg as (_ & Hg63 & Hinc).
+    destruct (diff_basis_spec (ssup d) Hs Hg Hw0 Hw1) as (basis & E & Lb & Nb).
+    change (sgrid (ssup d)) with g in Lb, Nb. fold ks in Nb.
+    destruct (diff_basis_count d Hd Hn HO (conj Hw0 Hw1)) as (basis' & E' & _ & Hinv & Hsame).
+    rewrite E in E'. injection E' as <-.
+    (* at least three basis functions, otherwise the solver throws *)
+    assert (3 <= length basis)%nat as H3.
+    { destruct (Nat.lt_ge_cases (length basis) 3) as [Hlt|Hge]; [|exact Hge]. exfalso.
+      rewrite (diffusion_too_small solve d a b Hd Hn HO (conj Hw0 Hw1) Hsolve) in Hr;
+        [discriminate|]. rewrite Hw0, Hw1. unfold nlen. lia. }
+    destruct (diffusion_spec solve d a b basis Hd E H3 Hinv Hsame Hsolve)
+      as (sys & r' & _ & Er' & Ir & Gr & _ & Mr & Dr).
+    rewrite Hr in Er'. injection Er' as <-. fold g in Gr.
+    set (first0 := nth 0 basis spl0) in *. set (last0 := nth (length basis - 1) basis spl0) in *.
+    (* what the basis functions denote *)
+    assert (Hden : forall i k x, (i < length basis)%nat -> (k + 1 < length g)%nat ->
+                     den (nth i basis spl0) (N.of_nat k) x = Bk ks ORDER i k x).
+    { intros i k x Hi Hk. destruct (Nb i Hi) as (b' & Eb' & (_ & _ & _ & Db')).
+      rewrite (nth_error_nth _ _ _ Eb'). apply Db'. rewrite HU. exact Hk. }
+    assert (Hinner : forall s, In s (removelast (tl basis)) ->
+              exists i, (1 <= i)%nat /\ (i + 1 < length basis)%nat /\ s = nth i basis spl0).
+    { intros s Hsi. apply In_inner_local in Hsi as (i & H1 & H2' & Hi).
+      exists i. split; [exact H1|]. split; [exact H2'|]. symmetry. apply nth_error_nth. exact Hi. }
+    assert (Himem : forall (s : spline F) k x, den s k x = f1 -> imem k (ssup s)).
+    { intros s k x H1. destruct (inb (ssup s) k) eqn:Ei; [apply inb_imem; exact Ei|].
+      apply inb_false in Ei. rewrite (den_out s k x Ei) in H1. exfalso.
+      apply (@f1_neq_f0 F K L). symmetry. exact H1. }
+    split.
+    - (* the first grid point: interval 0, its left end *)
+      set (x := gnth g 0).
+      assert (D1 : den first0 0 x = f1).
+      { change 0%N with (N.of_nat 0). unfold first0. rewrite Hden by lia.
+        apply (clamped_first g Hg). }
+      assert (D2 : den last0 0 x = f0).
+      { change 0%N with (N.of_nat 0). unfold last0. rewrite Hden by lia.
+        apply (clamped_others_zero_first g Hg); [lia | fold ks; lia]. }
+      assert (D3 : lincomb_val (solve (ds_mat sys) (ds_rhs sys))
+                     (map (fun s => den s 0 x) (removelast (tl basis))) = f0).
+      { apply lincomb_val_zero. intros v Hv. apply in_map_iff in Hv as (s & <- & Hsi).
+        destruct (Hinner s Hsi) as (i & H1 & H2' & ->).
+        change 0%N with (N.of_nat 0). rewrite Hden by lia.
+        apply (clamped_others_zero_first g Hg); [lia | fold ks; lia]. }
+      assert (I0 : imem 0 (ssup r)) by (apply Mr; left; apply (Himem first0 0%N x D1)).
+      rewrite (seval_inside r x 0 Ir I0).
+      + rewrite Dr, D1, D2, D3. f_equal. ring.
+      + right. split; [unfold imem in I0; lia|]. unfold sgridp in Gr. rewrite Gr. reflexivity.
+    - (* the last grid point: the last interval, its right end *)
+      set (x := gnth g (nlen g - 1)).
+      assert (EkL : (nlen g - 2)%N = N.of_nat (length g - 2)) by (unfold nlen; lia).
+      assert (D1 : den first0 (nlen g - 2) x = f0).
+      { rewrite EkL. unfold first0. rewrite Hden by lia.
+        apply (clamped_others_zero_last g Hg); [lia | fold ks; lia]. }
+      assert (D2 : den last0 (nlen g - 2) x = f1).
+      { rewrite EkL. unfold last0. rewrite Hden by lia.
+        replace (length basis - 1)%nat with (length g + ORDER - 2)%nat by lia.
+        apply (clamped_last g Hg). }
+      assert (D3 : lincomb_val (solve (ds_mat sys) (ds_rhs sys))
+                     (map (fun s => den s (nlen g - 2) x) (removelast (tl basis))) = f0).
+      { apply lincomb_val_zero. intros v Hv. apply in_map_iff in Hv as (s & <- & Hsi).
+        destruct (Hinner s Hsi) as (i & H1 & H2' & ->).
+        rewrite EkL, Hden by lia.
+        apply (clamped_others_zero_last g Hg); [lia | fold ks; lia]. }
+      assert (IL : imem (nlen g - 2) (ssup r))
+        by (apply Mr; right; apply (Himem last0 (nlen g - 2)%N x D2)).
+      rewrite (seval_inside r x (nlen g - 2) Ir IL).
+      + rewrite Dr, D1, D2, D3. f_equal. ring.
+      + left. unfold sgridp in Gr. rewrite Gr. unfold nlen in *.
+        replace (N.of_nat (length g) - 2 + 1)%N with (N.of_nat (length g) - 1)%N by lia.
+        split; [|apply fleb_refl].
+        apply gnth_lt; [exact Hinc | lia | unfold nlen; lia].
+  Qed.
+  End EndValues.
 End ExFacts.
+
+(* ====================================================================== *)
+(* Non-vacuity and witnesses over the rationals                            *)
+(* ====================================================================== *)
+From BSpl Require Import Instances.
+
+Definition ex_grid : list Qcanon.Qc := [qc 0 1; qc 1 1; qc 3 1].
+(* a piecewise linear diffusion coefficient on the whole grid *)
+Definition ex_d : spline Qcanon.Qc :=
+  mkSpl (mkSup ex_grid 0 3) 1 [[qc 1 1; qc 1 2]; [qc 2 1; qc 1 2]].
+(* a "solver" that only respects the size of the right-hand side *)
+Definition ex_solve (m : list (list Qcanon.Qc)) (r : list Qcanon.Qc) : list Qcanon.Qc :=
+  map (fun _ => qc 1 1) r.
+
+Lemma ex_grid_inv : GInv ex_grid.
+Proof.
+  split; [vm_compute; discriminate|]. split; [vm_compute; reflexivity|].
+  apply steadily_increasing. vm_compute. reflexivity.
+Qed.
+
+Lemma ex_d_inv : SplInv ex_d.
+Proof.
+  split; [|split; [exact ex_grid_inv|split]].
+  - split; [vm_compute; reflexivity|]. right. split; vm_compute; [reflexivity | discriminate].
+  - vm_compute. reflexivity.
+  - repeat constructor.
+Qed.
+
+(* the premises of the diffusion theorems are satisfiable (ORDER = 2), and the
+   conclusions agree with what the model computes *)
+Example diffusion_nonvacuous :
+  (exists r, diffusion 2 ex_solve ex_d (qc 5 1) (qc 7 1) = Ok r /\ SplInv r) /\
+  (forall r, diffusion 2 ex_solve ex_d (qc 5 1) (qc 7 1) = Ok r ->
+             spl_eval r (qc 0 1) = Ok (qc 5 1) /\ spl_eval r (qc 3 1) = Ok (qc 7 1)) /\
+  (do r <- diffusion 2 ex_solve ex_d (qc 5 1) (qc 7 1);
+   do x <- spl_eval r (qc 0 1); do y <- spl_eval r (qc 3 1);
+   Ok (Qcanon.this x, Qcanon.this y)) = Ok (Qcanon.this (qc 5 1), Qcanon.this (qc 7 1)).
+Proof.
+  assert (Hn : nintervals (ssup ex_d) <> 0%N) by (vm_compute; discriminate).
+  assert (Hw : sstart (ssup ex_d) = 0%N /\ sstop (ssup ex_d) = nlen (sgridp ex_d))
+    by (split; reflexivity).
+  assert (Hs : forall m r, length (ex_solve m r) = length r) by (intros m r; apply map_length).
+  split; [|split].
+  - destruct (diffusion_no_ub 2 ex_solve ex_d (qc 5 1) (qc 7 1) ex_d_inv Hn ltac:(lia) Hw Hs)
+      as (r & Er & Ir & _); [vm_compute; lia|]. exists r. auto.
+  - intros r Hr.
+    exact (diffusion_end_values 2 ex_solve ex_d (qc 5 1) (qc 7 1) r ex_d_inv Hn ltac:(lia) Hw Hs Hr).
+  - vm_compute. reflexivity.
+Qed.
+
+(* ORDER = 1 on a single interval: two basis functions, nothing left for the
+   inner system — MISSING_DATA, as [diffusion_too_small] says *)
+Example diffusion_too_small_witness :
+  diffusion 1 ex_solve (mkSpl (mkSup [qc 0 1; qc 1 1] 0 2) 1 [[qc 1 1; qc 1 2]]) (qc 5 1) (qc 7 1)
+  = Throw MISSING_DATA.
+Proof. vm_compute. reflexivity. Qed.
+
+(* why the theorems assume 1 <= ORDER: with SPLINE_ORDER = 0 on a single
+   interval the basis has one element and pop_back() meets an empty vector
+   (SPLINE_ORDER is the compile-time constant 10 in the shipped example) *)
+Example order_zero_erases_past_end :
+  diffusion 0 ex_solve (mkSpl (mkSup [qc 0 1; qc 1 1] 0 2) 1 [[qc 1 1; qc 1 2]]) (qc 5 1) (qc 7 1)
+  = UB ErasePastEnd.
+Proof. vm_compute. reflexivity. Qed.
+
+(* a sub-window of the grid is refused by the generator *)
+Example diff_basis_window_refused_witness :
+  diff_basis 2 (mkSup [qc 0 1; qc 1 1; qc 3 1; qc 4 1] 1 3) = Throw INCONSISTENT_DATA.
+Proof. vm_compute. reflexivity. Qed.
+
+(* the spline-potential example on four grid points with ORDER = 1: two basis
+   functions.  The repaired loop returns two eigenpairs, the original loop
+   bound 10 reads eigenvalues(2) out of range. *)
+Definition ex_grid4 : list Qcanon.Qc := [qc 0 1; qc 1 1; qc 3 1; qc 4 1].
+Definition ex_v : spline Qcanon.Qc :=
+  mkSpl (mkSup ex_grid4 0 4) 1 [[qc 1 1; qc 1 2]; [qc 2 1; qc 1 2]; [qc 3 1; qc 1 2]].
+Definition ex_eigs (h s : list (list Qcanon.Qc)) : list (Qcanon.Qc * list Qcanon.Qc) :=
+  map (fun row => (qc 1 1, map (fun _ => qc 1 1) row)) h.
+
+Example old_loop_reads_out_of_range_witness :
+  (exists l, potential_solve 1 ex_eigs ex_v = Ok l /\ length l = 2%nat) /\
+  potential_solve_old 1 ex_eigs ex_v = UB OOBRead.
+Proof.
+  split; [eexists; split; [vm_compute; reflexivity | reflexivity] | vm_compute; reflexivity].
+Qed.
+
+(* fewer grid points than ORDER + 1 knots *)
+Example potential_few_witness : potential_solve 4 ex_eigs ex_v = Throw UNDETERMINED.
+Proof. vm_compute. reflexivity. Qed.
